@@ -142,6 +142,9 @@ func sprintfArgs(c *ssa.Call) string {
 }
 
 func checkC11(p *load.Program, r *kit.Report) {
+	r.Rule("TIE-KEEPS-FIRST", "Branches.Longest replaces its selection only for strictly more accumulated work: equal-work branches keep their order across Save and Load", 1)
+	checkLongestTiesKeepFirst(p, r, "TIE-KEEPS-FIRST")
+	importRules(p, r, "C09", "Save consolidates first: the branch objects it rebuilds must get their own hash maps, or a side branch is dropped from memory and from the index because its parent hash is `found` in the wrong branch", 3, nil, "FRESH-MAP")
 	r.Rule("RESTORE-INVALID-LIST", "every exit of load that can report success — also the legacy-store exit through migrate — lies behind loadInvalidHashes", 1)
 	checkLoadReadsInvalidList(p, r, "RESTORE-INVALID-LIST")
 	r.Rule("PRUNE-BEFORE-LINK", "load shortens the restored branches to the retained depth before it links them: a branch whose fork point is not retained must fail to link", 1)
@@ -599,6 +602,9 @@ func checkBranchSave(p *load.Program, r *kit.Report) {
 }
 
 func checkC12(p *load.Program, r *kit.Report) {
+	importRules(p, r, "C11", "a crash image holds the branch files of one Save and the header files of another: load must read the header files from the lowest height the loaded best branch still holds in memory, not from its tip", 1,
+		func(o *kit.Obligation) bool { return strings.HasPrefix(o.Construct, "loadHistoricalHashHeights/") }, "COVER-ALL")
+	importRules(p, r, "C01", "Load reports the branch with the most stored work: the work stored with a header must be its own value (NewBranch adds into a copy, never into the parent header's big.Int), or a one-header stub outweighs the saved tip after a restart", 4, nil, "WORK-FLOW")
 	importRules(p, r, "C11", "a crash image is loadable only if every file that was completely written has the layout Load expects, and Save writes the main files before the branch files and index that depend on them", 3,
 		func(o *kit.Obligation) bool {
 			return o.Rule == "MAIN-FILE-SHAPE" || strings.HasPrefix(o.Construct, "Save/order") || strings.HasPrefix(o.Construct, "Branch.Save")
